@@ -2,8 +2,8 @@
    (markers/single.py: MarkerExpression._get_specifier for comparison / compatible-release /
    wildcard operators, MarkerExpression.from_specifier incl. the python_full_version zero
    padding, and the version branch of _evaluate = packaging's Specifier(op value).contains(env value))
-   over TOKENISED atoms: (variable, operator, parsed Version).  `in` / `not in` lists are
-   outside this model (string containment; see the known finding pv-in-substring).
+   over TOKENISED atoms: (variable, operator, parsed Version).  For `in` / `not in` lists the specifier VIEW is modelled
+   (in_view below); their evaluation is string containment (see the known finding pv-in-substring) and is not.
    Tied to the code by the S-bridge stream.  No proofs here. *)
 From Coq Require Import List Bool NArith Arith.
 From Verif Require Import PyRes Order Str SpecTypes GenSpec Pep440 Corr SpecParse.
@@ -120,7 +120,23 @@ Definition vmres_same (a b : vmres) : bool :=
   | VMAtom x, VMAtom y => clause_same x y
   | _, _ => false
   end.
+(* _get_specifier for `name in "<list>"` / `name not in "<list>"`: every member (a dotted release, tokenised as its segments)
+   with fewer than three segments becomes a wildcard clause for python_version and is zero-padded otherwise -- by TWO zeros
+   whatever its length, because `part_num := len(splitted) < 3` binds the Boolean; the clauses are joined by `||` (in, ==)
+   or `,` (not in, !=) and parsed. *)
+Definition in_item (name : vname) (neg : bool) (r : list N) : clause :=
+  if Nat.ltb (List.length r) 3 then
+    match name with
+    | PV => mkClause (if neg then OpNeStar else OpEqStar) (relver 0 r)
+    | _ => mkClause (if neg then OpNe else OpEq) (relver 0 (r ++ [0; 0]))
+    end
+  else mkClause (if neg then OpNe else OpEq) (relver 0 r).
+Definition in_text (name : vname) (neg : bool) (items : list (list N)) : stext :=
+  if neg then TAlts [map (in_item name true) items] else TAlts (map (fun r => [in_item name false r]) items).
+Definition in_view (name : vname) (neg : bool) (items : list (list N)) : pyres spec := parse (in_text name neg items).
+
 Inductive bcase :=
+| BInView (name : vname) (neg : bool) (items : list (list N)) (r : pyres spec)   (* MarkerExpression(name, "in" / "not in", list).specifier *)
 | BView (c : clause) (r : pyres spec)                     (* MarkerExpression(name, op, value).specifier *)
 | BEval (c : clause) (v : version) (b : bool)             (* MarkerExpression(...).evaluate({name: v}) *)
 | BEvalRev (c : clause) (v : version) (b : bool)          (* MarkerExpression(name, reflected op, lit, reversed=True).evaluate({name: v}) *)
@@ -130,6 +146,7 @@ Inductive bcase :=
 | BNormPV (c : clause) (r : pyres spec).                                    (* _normalize_python_version_specifier *)
 Definition check_bcase (c : bcase) : bool :=
   match c with
+  | BInView n neg items r => res_same spec_same_s (in_view n neg items) r
   | BView k r => res_same spec_same_s (get_specifier k) r
   | BEval k v b => Bool.eqb (atom_sem k v) b
   | BEvalRev k v b => Bool.eqb (atom_sem_rev k v) b
